@@ -42,12 +42,15 @@ CFG = {
         "length at and around 32, 64, 128, 256, 1024, 4096 and random lengths up to 6000 (real sender and VerifGenNonceStr; lengths 33, 65, "
         "4096 on every run): the code handed to the sender must have exactly that length over the digits and equal the model's pick from the "
         "draws, exactly that code verifies and the empty / shorter / longer / changed one does not; the model and the theorems "
-        "(nonce_length, valid_code_iff_generated, mock_code_length) are for every length."
+        "(nonce_length, valid_code_iff_generated, mock_code_length) are for every length. Class cfgvalues runs the limits and durations at "
+        "the ends of int / int64 (the model is in Z: nothing wraps in it, and the unchanged code does no arithmetic on the limits, so "
+        "MaxVerifyCount = MaxInt is 'unlimited' and MinInt 'nothing allowed'); timed-ttl-refused checks that the lifetime runs from the "
+        "send that went out (verify_after_send / verify_ok_only_if speak of last_send, which refused sends do not change)."
     ),
     "rule": (
         "a history case = one fresh service instance + one generated sequence of SendSMSCode / VerifySMSCode calls (6-30 calls, 1-5 "
         "pairs) with the verifier's code / hash derived from what was observed (right, stale, mutated, longer, shorter, empty, another "
-        "pair's, literal); non-trivial when it verifies a pair to which a send went out earlier; codelen histories put CodeLen at buffer boundaries (31..33, 63..65, 127..129, 255..257, 1000..6000); long-* histories repeat one call up to 131075 times (run-length form); a nonce case = one VerifGenNonceStr run "
+        "pair's, literal); non-trivial when it verifies a pair to which a send went out earlier; cfgvalues histories put MaxVerifyCount / MaxCount / CacheSize / the durations at 0, +-1, MaxInt, MaxInt-1, MinInt, 2^31+-1, MaxInt64 ns (MaxInt, MaxInt-1, MinInt, 2^31 on every run); timed-ttl-refused histories have 0 < TTL < MinInterval with refused sends between the send and verifications clearly before / clearly after the ORIGINAL deadline; codelen histories put CodeLen at buffer boundaries (31..33, 63..65, 127..129, 255..257, 1000..6000); long-* histories repeat one call up to 131075 times (run-length form); a nonce case = one VerifGenNonceStr run "
         "with scripted draws, non-trivial when length > 0 and the alphabet is non-empty; a sample case = 200 codes from the real "
         "generator; distinct = distinct generator script"
     ),
